@@ -1058,7 +1058,16 @@ class Value(Term):
         :param want_inline_parens: bool, if True put parens around complex expressions that don't already have a grouper.
         :return: PythonText
         """
-        return PythonText(self.value.__repr__(), is_in_parens=False)
+        value_text = self.value.__repr__()
+        if (
+            want_inline_parens
+            and isinstance(self.value, (int, float))
+            and (not isinstance(self.value, bool))
+            and (self.value < 0)
+        ):
+            # a negative literal starts with a unary minus: group it when nested in an operator expression
+            return PythonText("(" + value_text + ")", is_in_parens=True)
+        return PythonText(value_text, is_in_parens=False)
 
     # don't collect -5 as a complex expression
     def __neg__(self):
